@@ -143,7 +143,6 @@ def run(ctx):
         mcore = m.rsplit(" | k:", 1)[0]
         if cpu.canon_err(p) != cpu.canon_err(mcore):
             ctx.broke("correspondence:pairs", f"`exec1 {l[:200]}` python={p[:160]} model={mcore[:160]}")
-            continue
         pp = cpu.parse(p)
         if pp is None:
             continue
